@@ -102,12 +102,14 @@ type Contract struct {
 	Safety     bool
 	NilCheck   bool
 	NoFrame    bool
+	NoSplit    bool // do not split conjunctive goals into one obligation per conjunct
 	Asserts    []AssertAt
 	Ghosts     []GhostVar
 	GhostUpd   []GhostUpdate
 	Uses       []string
 	Reveal     []string
 	Hide       []string // ground tables treated as uninterpreted in this unit (facts come from lemmas)
+	PropFor    map[string][]string // property -> clause labels: the unit serves that property with these clauses only
 	// lemma
 	IsLemma bool
 	Params  []SpecParam
@@ -246,6 +248,17 @@ func (cs *ContractSet) parseFile(path string) {
 		}
 		switch kw {
 		case "property":
+			// `property C10 for clock, hclock`: only the named clauses are obligations of C10
+			if i := strings.Index(rest, " for "); i >= 0 {
+				if cur.PropFor == nil {
+					cur.PropFor = map[string][]string{}
+				}
+				pr := strings.TrimSpace(rest[:i])
+				for _, l := range strings.Split(rest[i+5:], ",") {
+					cur.PropFor[pr] = append(cur.PropFor[pr], strings.TrimSpace(l))
+				}
+				continue
+			}
 			for _, p := range strings.Split(rest, ",") {
 				cur.Props = append(cur.Props, strings.TrimSpace(p))
 			}
@@ -336,8 +349,9 @@ func (cs *ContractSet) parseFile(path string) {
 			}
 			cur.GhostUpd = append(cur.GhostUpd, GhostUpdate{um[1], um[2], mk(um[3])})
 		case "do":
-			cur.Body = append(cur.Body, mk(rest))
+			cur.Body = append(cur.Body, SpecExpr{Src: rest, Line: loc})
 		case "nosplit":
+			cur.NoSplit = true
 		case "use":
 			cur.Uses = append(cur.Uses, rest)
 		case "hide":
